@@ -1412,6 +1412,27 @@ class Executor:
                     raise PathAbort("memsafety", "double free")
                 p.obj.freed = True
             return None
+        if name == "verif_launder":
+            return args[0]
+        if name == "verif_const_begin":
+            self.path.region = {id(o): (o, set(o.written)) for o in self.path.objs}
+            for o in self.path.objs:
+                o.written = set()
+            return None
+        if name == "verif_const_end":
+            reg = getattr(self.path, "region", None)
+            if reg is None:
+                raise Unsupported("verif_const_end without begin")
+            for oid_, (o, before) in reg.items():
+                new = o.written
+                if o.kind != "arg" and new and before:
+                    # writes inside the const region to storage that was initialised before it (shared state of a const object)
+                    hit = [(a, n) for (a, n) in new if any(a < b + m and b < a + n for (b, m) in before)]
+                    if hit:
+                        self.path.events.append(("const-write", o.name, sorted(hit)))
+                o.written = before | new
+            self.path.region = None
+            return None
         if name == "__assert_fail":
             msg = self.cstring(args[0])
             raise PathAbort("assert", msg)
